@@ -567,7 +567,31 @@ func onlyAuthorityHandlers(w *World, cr *ClassReach, f *ssa.Function) bool {
 }
 
 // hasAuthorityGuard: the handler returns an error unless a request string equals the keeper's authority.
+// authorityGuardByFacts: every success return of h is dominated by `x == keeper authority`, directly or
+// through a guard helper (boolean or error-returning) whose accepting paths establish it.
+func authorityGuardByFacts(h *ssa.Function) bool {
+	rets := SuccessReturns(h)
+	if len(rets) == 0 {
+		return false
+	}
+	for r := range rets {
+		held := false
+		for _, fa := range FactsAt(r) {
+			if fa.Kind == FCmp && fa.Op == token.EQL && (isAuthorityValue(fa.X) || isAuthorityValue(fa.Y)) {
+				held = true
+			}
+		}
+		if !held {
+			return false
+		}
+	}
+	return true
+}
+
 func hasAuthorityGuard(w *World, h *ssa.Function) bool {
+	if authorityGuardByFacts(h) {
+		return true
+	}
 	for _, b := range h.Blocks {
 		if len(b.Instrs) == 0 {
 			continue
